@@ -46,9 +46,11 @@ func main() {
 		}
 		close(start)
 		wg.Wait()
+		// the expectation is computed only now: run 0 met cold package state
+		exp := in.Expect()
 		for i := range obs {
-			if obs[i] != in.Expected[i] {
-				fmt.Printf("WRONG RESULT in %s: thread %d observed %s, alone it observes %s\n", sc.Name, i, obs[i], in.Expected[i])
+			if obs[i] != exp[i] {
+				fmt.Printf("WRONG RESULT in %s (run %d): thread %d observed %s, alone it observes %s\n", sc.Name, r, i, obs[i], exp[i])
 				bad = true
 			}
 		}
